@@ -358,3 +358,55 @@ Proof.
 Qed.
 
 End LayerFacts.
+
+From Coq Require Import Permutation.
+Require Import SC.Proofs.MaskFacts.
+Section LayerOrder.
+Context {D : Type} `{Ord D}.
+
+Lemma sum_perm (A : Type) (g : A -> Qc) (l l' : list A) : Permutation l l' ->
+  fold_right (fun a acc => g a + acc) 0 l = fold_right (fun a acc => g a + acc) 0 l'.
+Proof.
+  induction 1; simpl; auto.
+  - rewrite IHPermutation. reflexivity.
+  - ring.
+  - congruence.
+Qed.
+
+(* the order of layering does not matter *)
+Theorem layer_order_irrelevant (calls calls' : list (layer_args (D := D))) (f : stairs D) :
+  wf f -> Permutation calls calls' ->
+  deq (fold_left layer calls f) (fold_left layer calls' f).
+Proof.
+  intros Wf Hp. destruct (layer_history calls f Wf) as (_ & C1 & L1).
+  destruct (layer_history calls' f Wf) as (_ & C2 & L2).
+  split; [congruence|]. intros sd x. rewrite L1, L2.
+  destruct (lim sd f x); auto. f_equal. f_equal.
+  apply (sum_perm _ (fun a => contribs (strict_of sd) a x)). exact Hp.
+Qed.
+
+(* scalar and one-element vector arguments denote the same triple *)
+Theorem scalar_vs_vector (f : stairs D) st en v : wf f ->
+  deq (layer f (LScalar st en v)) (layer f (LVector [(st, en, v)])).
+Proof.
+  intros Wf. destruct (layer_spec f (LScalar st en v) Wf) as (_ & C1 & L1).
+  destruct (layer_spec f (LVector [(st, en, v)]) Wf) as (_ & C2 & L2).
+  split; [congruence|]. intros sd x. rewrite L1, L2. destruct (lim sd f x); auto.
+  f_equal. f_equal. simpl. ring.
+Qed.
+
+(* the tuple shorthand of mask: the indicator of the interval from lo to hi *)
+Theorem mask_tuple_spec (f r : stairs D) lo hi : wf f -> mask_tuple f lo hi = Ok r ->
+  wf r /\ forall sd x, lim sd r x =
+    if Qceqb (contrib (strict_of sd) (lo, hi, 1) x) 0 then lim sd f x else None.
+Proof.
+  intros Wf. unfold mask_tuple.
+  assert (W0 : wf (@const D (Some 0) (closed f))) by exact I.
+  destruct (layer_spec (const (Some 0) (closed f)) (LScalar lo hi 1) W0) as (L1 & L2 & L3).
+  intros E. destruct (mask_stairs_spec false f _ r Wf L1 E) as (M1 & _ & M3).
+  split; [exact M1|]. intros sd x. rewrite M3, L3, lim_const. unfold vmaskw, vmask.
+  replace (0 + contribs (strict_of sd) (LScalar lo hi 1) x) with (contrib (strict_of sd) (lo, hi, 1) x) by (simpl; ring).
+  reflexivity.
+Qed.
+
+End LayerOrder.
